@@ -41,6 +41,9 @@ partial def loop (h : IO.FS.Stream) (out : IO.FS.Stream) (f : String → String)
   loop h out f
 
 def modes : List (String × (String → String)) := [
+  ("c16carry", C16.handleCarry),
+  ("c16def", C16.handleDef),
+  ("c16px", C16.handlePx),
   ("c01o", C01O.handle),
   ("c19l", C19L.handle),
   ("c10r", C10R.handle),
